@@ -17,7 +17,7 @@ func init() {
 		Text: "functions of the server that use an *object.Object parameter without a nil test (reply builders such as buildObjectResponse) are only called with a definitely assigned object: the result of object.New, a value under a dominating non-nil test, a callback/function parameter, or a struct field whose store dominates the call",
 		Run:  ruleObjectContract})
 	register(&Rule{ID: "R16.one-reply", Props: []string{"C16", "C17"}, Floor: 10,
-		Text: "in handleInputCommand every call of the reply writers (writeOutput/writeErr) is the operand of a return statement, so that on every path exactly one reply is written per command (a gate that writes an error and continues would desynchronise the pipeline)",
+		Text: "in handleInputCommand, after any call of a reply writer (a local closure that writes to the client connection, or that calls one) no second writer call, no lock arm and no dispatch is reachable on any path, so that exactly one reply is written per command (a gate that writes an error and continues would desynchronise the pipeline)",
 		Run:  ruleOneReply})
 	register(&Rule{ID: "R16.pool-pairing", Props: []string{"C16"}, Floor: 3,
 		Text: "every Lua state taken from the bounded pool (luapool.Get) is, on every path to the function's exits, put back (directly, deferred, or through the Close of an owner built from it) or handed to an owner aggregate; after a hand-off every return either passes the aggregate to the caller or is covered by a deferred closer of the aggregate — in particular every error return releases the state",
@@ -240,8 +240,18 @@ func ruleOneReply(c *Ctx) {
 	}
 	hic := ct.HIC
 	info := hic.Info()
-	// reply writers: local closures named by the variables bound to literals that (transitively) write to the client
-	writers := map[types.Object]string{}
+	// reply writers, by role: local closures of handleInputCommand that write to the client connection
+	// (a Write/WriteString/Fprintf with the *Client parameter as destination), or that call such a closure
+	var clientParam types.Object
+	for _, p := range hic.Decl.Type.Params.List {
+		for _, nm := range p.Names {
+			if isNamedType(info.ObjectOf(nm).Type(), modPath+"/internal/server", "Client") {
+				clientParam = info.ObjectOf(nm)
+			}
+		}
+	}
+	lits := map[types.Object]*ast.FuncLit{}
+	names := map[types.Object]string{}
 	ast.Inspect(hic.Decl.Body, func(n ast.Node) bool {
 		as, ok := n.(*ast.AssignStmt)
 		if !ok || len(as.Lhs) != 1 || len(as.Rhs) != 1 {
@@ -251,85 +261,98 @@ func ruleOneReply(c *Ctx) {
 		if !ok {
 			return true
 		}
-		if _, ok := as.Rhs[0].(*ast.FuncLit); ok && (id.Name == "writeOutput" || id.Name == "writeErr") {
-			writers[info.ObjectOf(id)] = id.Name
+		if l, ok := as.Rhs[0].(*ast.FuncLit); ok {
+			lits[info.ObjectOf(id)] = l
+			names[info.ObjectOf(id)] = id.Name
 		}
 		return true
 	})
-	if len(writers) != 2 {
-		c.und("writers", hic.Decl.Pos(), "reply writers writeOutput/writeErr not found as local closures of handleInputCommand")
+	writers := map[types.Object]string{}
+	for changed := true; changed; {
+		changed = false
+		for o, l := range lits {
+			if writers[o] != "" {
+				continue
+			}
+			w := false
+			ast.Inspect(l.Body, func(n ast.Node) bool {
+				call, ok := n.(*ast.CallExpr)
+				if !ok {
+					return true
+				}
+				if id, ok := ast.Unparen(call.Fun).(*ast.Ident); ok && writers[info.ObjectOf(id)] != "" {
+					w = true
+				}
+				if se, ok := ast.Unparen(call.Fun).(*ast.SelectorExpr); ok {
+					if id, ok := ast.Unparen(se.X).(*ast.Ident); ok && clientParam != nil && info.ObjectOf(id) == clientParam && strings.HasPrefix(se.Sel.Name, "Write") {
+						w = true
+					}
+				}
+				if len(call.Args) > 0 {
+					if id, ok := ast.Unparen(call.Args[0]).(*ast.Ident); ok && clientParam != nil && info.ObjectOf(id) == clientParam {
+						if f := callee(info, call); f != nil && (isFunc(f, "io", "WriteString") || isFunc(f, "fmt", "Fprintf") || isFunc(f, "fmt", "Fprint")) {
+							w = true
+						}
+					}
+				}
+				return true
+			})
+			if w {
+				writers[o] = names[o]
+				changed = true
+			}
+		}
+	}
+	if len(writers) < 2 {
+		c.und("writers", hic.Decl.Pos(), "fewer than two reply writers (local closures of handleInputCommand that write to the client) found")
 		return
 	}
-	n := 0
-	// calls in the body of handleInputCommand itself (not inside the writer literals)
-	var visit func(node ast.Node, inWriter bool)
-	visit = func(node ast.Node, inWriter bool) {
-		ast.Inspect(node, func(x ast.Node) bool {
-			if as, ok := x.(*ast.AssignStmt); ok && len(as.Lhs) == 1 {
-				if id, ok := as.Lhs[0].(*ast.Ident); ok && writers[info.ObjectOf(id)] != "" {
-					return false // the writer definitions: writeErr calls writeOutput as its tail
+	fg := newFlowGraph(info, hic.Decl.Body)
+	isWriterCall := func(n ast.Node) *ast.CallExpr {
+		var hit *ast.CallExpr
+		inspectNoLit(n, func(x ast.Node) bool {
+			if call, ok := x.(*ast.CallExpr); ok {
+				if id, ok := ast.Unparen(call.Fun).(*ast.Ident); ok && writers[info.ObjectOf(id)] != "" {
+					hit = call
 				}
 			}
-			call, ok := x.(*ast.CallExpr)
-			if !ok {
-				return true
-			}
-			id, ok := ast.Unparen(call.Fun).(*ast.Ident)
-			if !ok || writers[info.ObjectOf(id)] == "" {
-				return true
-			}
-			n++
-			key := fmt.Sprintf("%s@%s", writers[info.ObjectOf(id)], replyKeyArg(info, call))
-			par := c.Parent(call)
-			isRet := false
-			if r, ok := par.(*ast.ReturnStmt); ok && len(r.Results) == 1 {
-				isRet = true
-			}
-			// `if err := writeOutput(resStr); err != nil { return err }; return nil` — the tail of the function
-			if !isRet {
-				if as, ok := par.(*ast.AssignStmt); ok {
-					if ifs, ok := c.Parent(as).(*ast.IfStmt); ok && ifs.Init == as {
-						// the statement after the if must be a return
-						if blk, ok := c.Parent(ifs).(*ast.BlockStmt); ok {
-							for i, st := range blk.List {
-								if st == ifs && i+1 < len(blk.List) {
-									if _, ok := blk.List[i+1].(*ast.ReturnStmt); ok {
-										isRet = true
-									}
-								}
-							}
-						}
-					}
-				}
-			}
-			// err := writeErr(...); msg.OutputType = ot; return err
-			if !isRet {
-				if as, ok := par.(*ast.AssignStmt); ok && len(as.Lhs) == 1 {
-					if lid, ok := as.Lhs[0].(*ast.Ident); ok {
-						if blk, ok := c.Parent(as).(*ast.BlockStmt); ok {
-							for i, st := range blk.List {
-								if st != as {
-									continue
-								}
-								for _, later := range blk.List[i+1:] {
-									if r, ok := later.(*ast.ReturnStmt); ok && len(r.Results) == 1 {
-										if rid, ok := r.Results[0].(*ast.Ident); ok && info.ObjectOf(rid) == info.ObjectOf(lid) {
-											isRet = true
-										}
-										break
-									}
-									// no further writer call in between
-								}
-							}
-						}
-					}
-				}
-			}
-			c.check(isRet, key, call.Pos(), "the reply is written by a return statement (nothing follows it on this path)", "a reply is written but the command continues: a second reply follows on the same path, or the command is executed after an error was already sent")
 			return true
 		})
+		return hit
 	}
-	visit(hic.Decl.Body, false)
+	isDispatch := func(n ast.Node) bool {
+		hit := false
+		inspectNoLit(n, func(x ast.Node) bool {
+			if call, ok := x.(*ast.CallExpr); ok {
+				if f := callee(info, call); f != nil && f == ct.Command.Obj {
+					hit = true
+				}
+			}
+			return true
+		})
+		return hit
+	}
+	n := 0
+	// every writer call in the body of handleInputCommand itself (not inside the writer literals): after it,
+	// no second writer call and no dispatch is reachable — exactly one reply per command on every path
+	for _, b := range fg.G.Blocks {
+		if !fg.Reachable(b) {
+			continue
+		}
+		for i, node := range b.Nodes {
+			call := isWriterCall(node)
+			if call == nil {
+				continue
+			}
+			n++
+			id := ast.Unparen(call.Fun).(*ast.Ident)
+			key := fmt.Sprintf("%s@%s", writers[info.ObjectOf(id)], replyKeyArg(info, call))
+			again, w := fg.Reach(PathQuery{From: Loc{b, i, node}, Correlate: true, Target: func(l Loc) bool {
+				return isWriterCall(l.Node) != nil || isDispatch(l.Node) || l.Node.Pos() >= ct.LT.Stmt.Pos() && l.Node.Pos() < ct.LT.Stmt.End() && call.Pos() < ct.LT.Stmt.Pos()
+			}})
+			c.checkPath(!again, key, call.Pos(), w, "after this reply no second reply and no dispatch is reachable on any path", "a reply is written but the command continues: a second reply follows on the same path, or the command is executed after an error was already sent")
+		}
+	}
 	c.stat("reply_writer_calls", n)
 }
 
